@@ -98,6 +98,7 @@ pub fn run(tier: Tier) -> ! {
     pool.extend(crate::c06::nested_tag_family().into_iter().step_by(7));
     pool.extend(crate::c01::edge_family());
     pool.extend(crate::c01::leading_zero_family());
+    pool.extend(crate::c01::cache_table_family());
     pool.extend(crate::c01::sparse_large_window_family());
     pool.extend(crate::c06::scale_tag_family(tier.pick(5000, 70000)));
     chk.set("models", json!(pool.len()));
